@@ -136,7 +136,7 @@ CONTENT_KEYS = {"icomment": ["comment"], "ecomment": ["comment"], "preamble": ["
 
 
 def compare(obs: List[Dict[str, Any]], exp: List[Dict[str, Any]], spans: List[Tuple[int, int]],
-            text: str) -> Dict[str, str]:
+            text: str, values: bool = True) -> Dict[str, str]:
     """Clause -> first difference.  Clauses: blocks, content, start_line, field_line, failed_range, failed_carry."""
     diff: Dict[str, str] = {}
     if len(obs) != len(exp) or any(o["cls"] != e["cls"] for o, e in zip(obs, exp)):
@@ -156,11 +156,15 @@ def compare(obs: List[Dict[str, Any]], exp: List[Dict[str, Any]], spans: List[Tu
             if spans[i][0] != e["start"] or o["raw"] != e["raw"]:
                 diff.setdefault("raw", f"block {i} ({c}) raw {o['raw'][:60]!r} expected {e['raw'][:60]!r}")
             for k in CONTENT_KEYS[c]:
+                if not values and k in ("value", "comment"):
+                    continue
                 ov, ev = o.get(k), e.get(k)
                 if (ov.strip() if isinstance(ov, str) else ov) != (ev.strip() if isinstance(ev, str) else ev):
                     diff.setdefault("content", f"block {i} ({c}) {k}={o.get(k)!r} expected {e.get(k)!r}")
             if c in ("entry", "dupfield"):
                 of, ef = o["fields"], e["fields"]
+                if not values:      # a parse stack has transformed the values: keys and lines only
+                    of = [[x[0], y[1], x[2]] for x, y in zip(of, ef)] if len(of) == len(ef) else of
                 if [x[:2] for x in of] != [x[:2] for x in ef]:
                     diff.setdefault("content", f"block {i} ({c}) fields {[x[:2] for x in of]!r} expected {[x[:2] for x in ef]!r}")
                 else:
@@ -183,6 +187,8 @@ def run_split(bib, text: str, how: str = "split"):
     try:
         if how == "split":
             lib = bib.splitter.Splitter(text).split()
+        elif how == "default":
+            lib = bib.parse_string(text)
         else:
             lib = bib.parse_string(text, parse_stack=[])
     except Exception as e:  # noqa
@@ -257,7 +263,7 @@ def evaluate(bib, texts: List[str], how: str = "split", shards: int = 16, gramma
         elif rec["tiling_problem"] is not None:
             diff["tiling"] = rec["tiling_problem"]
         else:
-            diff = compare(rec["obs"], exp, rec["spans"], rec["text"])
+            diff = compare(rec["obs"], exp, rec["spans"], rec["text"], values=(how != "default"))
             if r["obs"] == "tiling":
                 diff.setdefault("tiling", "TLC: Tiling(toks, observed ranges) is false")
             elif r["obs"] == "start_line":
